@@ -443,6 +443,85 @@ impl PullSocket {
 }
 
 // ---- C16 corollary: once forgotten, never chosen ----
+// ---- C05 corollary at the socket API: successive recv calls hand over exactly the message items, in queue order ----
+pub type QItem = Option<(PeerIdentity, CodecResult<Message>)>;
+/// the frame sequences of the message items of a queue log, in log order
+pub open spec fn msgs_of(log: Seq<QItem>) -> Seq<Seq<Bytes>>
+    decreases log.len()
+{
+    if log.len() == 0 { Seq::empty() } else {
+        let d = msgs_of(log.drop_last());
+        if message_item(log.last()) { d.push(log.last()->Some_0.1->Ok_0->Message_0.fr()) } else { d }
+    }
+}
+/// the frame sequences of the Ok results of a sequence of recv calls, in call order
+pub open spec fn ok_frames(rs: Seq<ZmqResult<ZmqMessage>>) -> Seq<Seq<Bytes>>
+    decreases rs.len()
+{
+    if rs.len() == 0 { Seq::empty() } else {
+        let d = ok_frames(rs.drop_last());
+        if rs.last() is Ok { d.push(rs.last()->Ok_0.fr()) } else { d }
+    }
+}
+/// a history of recv calls on one DEALER / PULL / SUB / XPUB socket: logs[i] --rs[i]--> logs[i+1]
+pub open spec fn recv_trace(logs: Seq<Seq<QItem>>, rs: Seq<ZmqResult<ZmqMessage>>) -> bool {
+    &&& logs.len() == rs.len() + 1
+    &&& forall|i: int| 0 <= i < rs.len() ==> plain_received(#[trigger] logs[i], logs[i + 1], rs[i])
+}
+/// items the receivers skip by design contribute no message
+pub proof fn lemma_recv_trace_skip(l: Seq<QItem>, n: int)
+    requires 0 <= n <= l.len(), forall|i: int| n <= i < l.len() ==> skipped_item(#[trigger] l[i]),
+    ensures msgs_of(l) == msgs_of(l.subrange(0, n)),
+    decreases l.len() - n
+{
+    if n == l.len() {
+        assert(l.subrange(0, n) =~= l);
+    } else {
+        let m = l.drop_last();
+        assert(skipped_item(l[l.len() - 1]));
+        assert forall|i: int| n <= i < m.len() implies skipped_item(#[trigger] m[i]) by { assert(m[i] == l[i]); }
+        lemma_recv_trace_skip(m, n);
+        assert(m.subrange(0, n) =~= l.subrange(0, n));
+    }
+}
+/// one call: the log grows by skipped items and one last item; a message is handed over iff that item is one
+pub proof fn lemma_recv_trace_step(l0: Seq<QItem>, l1: Seq<QItem>, r: ZmqResult<ZmqMessage>)
+    requires plain_received(l0, l1, r),
+    ensures msgs_of(l1) == (if r is Ok { msgs_of(l0).push(r->Ok_0.fr()) } else { msgs_of(l0) }),
+{
+    let m = l1.drop_last();
+    assert forall|i: int| l0.len() <= i < m.len() implies skipped_item(#[trigger] m[i]) by { assert(m[i] == l1[i]); }
+    lemma_recv_trace_skip(m, l0.len() as int);
+    assert(m.subrange(0, l0.len() as int) =~= l0);
+}
+/// Exactly once and in order at the socket API: over any history of recv calls, the messages returned (Ok results,
+/// in call order) are exactly the message items the queue yielded during that history, in queue order - no message
+/// item is skipped, none is returned twice, none overtakes another, and nothing that is not a message item is returned.
+pub proof fn lemma_recv_trace_exactly_once_in_order(logs: Seq<Seq<QItem>>, rs: Seq<ZmqResult<ZmqMessage>>)
+    requires recv_trace(logs, rs),
+    ensures msgs_of(logs.last()) == msgs_of(logs[0]) + ok_frames(rs),
+    decreases rs.len()
+{
+    if rs.len() == 0 {
+        assert(logs.last() == logs[0]);
+        assert(msgs_of(logs[0]) + Seq::<Seq<Bytes>>::empty() =~= msgs_of(logs[0]));
+    } else {
+        let n = rs.len() as int;
+        let lg = logs.drop_last(); let rr = rs.drop_last();
+        assert forall|i: int| 0 <= i < rr.len() implies plain_received(#[trigger] lg[i], lg[i + 1], rr[i]) by {
+            assert(lg[i] == logs[i] && lg[i + 1] == logs[i + 1] && rr[i] == rs[i]);
+        }
+        lemma_recv_trace_exactly_once_in_order(lg, rr);
+        assert(lg[0] == logs[0] && lg.last() == logs[n - 1] && logs.last() == logs[n]);
+        assert(plain_received(logs[n - 1], logs[n], rs[n - 1]));
+        lemma_recv_trace_step(logs[n - 1], logs[n], rs[n - 1]);
+        let base = msgs_of(logs[0]); let d = ok_frames(rr);
+        if rs.last() is Ok {
+            assert((base + d).push(rs.last()->Ok_0.fr()) =~= base + d.push(rs.last()->Ok_0.fr()));
+        }
+    }
+}
+
 /// "once the socket has observed the end no later send is routed to that peer": the round robin writes to
 /// `q[first_live(q, t)]`, which is in the table `t` (lemma_first_live_bounds); a forgotten peer is not in the table any
 /// more, so whatever the rotation queue still contains, the peer a later send chooses is a different one.
